@@ -62,6 +62,9 @@ def rename_fields(facts):
                 continue
             if [fl["ty"] for fl in v["fields"]] != [o[1] for o in old]:
                 continue  # fields were reordered or retyped: not a plain rename
+            changed_now = {n for n, o in zip(names_now, names_old) if n != o}
+            if changed_now & set(names_old):
+                continue  # an old name reappears at another position: the declaration was reordered, names stay authoritative
             for fl, o in zip(v["fields"], old):
                 if fl["name"] != o[0]:
                     ren[(a["path"], v["name"], fl["name"])] = o[0]
